@@ -7,14 +7,25 @@ CONSTANTS
   C0 = 2
   Sp0 = 2
   Methods = {"PIT", "SN", "MPS"}
-  Twos = {"no", "cat"}
+  Twos = {"no"}
+  ConvVars = {"dflt"}
+  BnVars = {"dflt"}
+  SnoVars = {1}
   AllowPl = TRUE
   AllowExcl = TRUE
   AllowReuse = TRUE
+  AllowLin3 = FALSE
+  AllowDrop = TRUE
   AllowFindings = FALSE
+  MaxHist = 1
+VIEW ViewNoHist
+INVARIANT InvConvertOk
 INVARIANT InvFnPreserved
+INVARIANT InvImportedConfig
 INVARIANT InvUserParams
 INVARIANT InvUserFn
+INVARIANT InvUserOpts
 INVARIANT InvModeKept
+INVARIANT InvFlagsLast
 INVARIANT InvExportIso
 INVARIANT InvBnAccount
